@@ -138,6 +138,31 @@ fn main() {
                 }
             }
         }
+        "corpus" => {
+            // atsv corpus <ID> <dir> <n>: write n starting inputs for the libFuzzer target (random
+            // tapes of mixed lengths; a pure function of VERIF_SEED)
+            let dir = args.get(3).cloned().unwrap_or_else(|| "corpus".into());
+            let n: usize = args.get(4).and_then(|s| s.parse().ok()).unwrap_or(64);
+            let seed: u64 = std::env::var("VERIF_SEED").ok().and_then(|s| s.parse::<i128>().ok()).map(|x| x as u64).unwrap_or(20261001);
+            let _ = std::fs::create_dir_all(&dir);
+            let mut x = seed ^ ((prop as u64) << 48) | 1;
+            let mut next = || {
+                x ^= x << 13;
+                x ^= x >> 7;
+                x ^= x << 17;
+                x
+            };
+            for i in 0..n {
+                let ops = [0usize, 2, 5, 10, 20, 40, 80, 120][i % 8];
+                let words = gen::WORLD_WORDS + ops * gen::OP_WORDS;
+                let mut bytes = Vec::with_capacity(words * 4);
+                for _ in 0..words {
+                    bytes.extend_from_slice(&(next() as u32).to_le_bytes());
+                }
+                let _ = std::fs::write(format!("{}/seed-{:03}", dir, i), bytes);
+            }
+            std::process::exit(0);
+        }
         other => {
             eprintln!("unknown command {}", other);
             std::process::exit(2);
